@@ -251,6 +251,13 @@ def case_oracle(case, *, cexec=False):
         except Exception as e:  # noqa: BLE001
             return Failure("trace-call-exception", f"{type(e).__name__}: {e}",
                            exc_site(e)), info
+        for k in direct.outputs:
+            a, b = direct.outputs[k], traced.outputs.get(k)
+            if isinstance(a, pt.Array) and not isinstance(b, pt.Array):
+                return Failure("traced-result-kind", f"{k}: the traced call "
+                               f"returns a {type(b).__name__} where calling "
+                               "the function directly returns an array",
+                               "trace_call"), info
         gd = direct.dict_of_named_arrays()
         gt = traced.dict_of_named_arrays()
         info["call_nodes"] = _has_calls(gt)
